@@ -4,6 +4,7 @@ import (
 	"go/constant"
 	"go/token"
 	"go/types"
+	"strings"
 
 	"golang.org/x/tools/go/ssa"
 
@@ -14,6 +15,8 @@ import (
 func init() {
 	Register(&Prop{
 		ID: "C07",
+		// every clause is decided on resolved entities (fields, functions, callees) and follows static in-package calls with
+		// parameter/argument substitution; shapes that are not recognised end UNDECIDED, never as a violation
 		Decides: "parsigdb.MemDB: (P1) entries/keysByDuty/exemptEntries are touched only under mu, append and snapshot in one critical section; " +
 			"(P2) once a validator of a batch has reached threshold every path to the exit of StoreExternal reaches the threshold-subscriber fan-out; " +
 			"(P3) the set handed to subscribers is one message-root group of exactly `threshold` members built from the stored list; " +
@@ -52,6 +55,36 @@ func init() {
 			{ID: "C07-P7-evict-on-dup", File: "core/parsigdb/memory.go", Expect: "P7",
 				Old: "\t\t\t} else if !equal {\n\t\t\t\treturn nil, false, errors.New(\"mismatching partial signed data\",",
 				New: "\t\t\t} else if !equal {\n\t\t\t\tdelete(db.entries, k)\n\t\t\t\treturn nil, false, errors.New(\"mismatching partial signed data\","},
+			// added while hardening the rules against refactorings (one edit each, mechanisms the shape-independent
+			// formulations must still decide)
+			{ID: "C07-P2-fanout-guard-off-by-one", File: "core/parsigdb/memory.go", Expect: "P2",
+				Old: "\tif len(output) == 0 {\n\t\treturn storeErr", New: "\tif len(output) <= 1 {\n\t\treturn storeErr"},
+			{ID: "C07-P3-shortcut-wrong-type", File: "core/parsigdb/memory.go", Expect: "P3|DutySignature shortcut",
+				Old: "\tif typ == core.DutySignature {", New: "\tif typ != core.DutySignature {"},
+			{ID: "C07-P3-group-skips-element", File: "core/parsigdb/memory.go", Expect: "P3|grouping",
+				Old: "\t\tsigsByMsgRoot[root] = append(sigsByMsgRoot[root], sig)\n",
+				New: "\t\tif sig.ShareIdx == 1 {\n\t\t\tcontinue\n\t\t}\n\n\t\tsigsByMsgRoot[root] = append(sigsByMsgRoot[root], sig)\n"},
+			{ID: "C07-P3-group-wrong-element", File: "core/parsigdb/memory.go", Expect: "P3|grouping",
+				Old: "\t\tsigsByMsgRoot[root] = append(sigsByMsgRoot[root], sig)\n", New: "\t\tsigsByMsgRoot[root] = append(sigsByMsgRoot[root], sigs[0])\n"},
+			{ID: "C07-P3-group-restarted", File: "core/parsigdb/memory.go", Expect: "P3|grouping",
+				Old: "\t\tsigsByMsgRoot[root] = append(sigsByMsgRoot[root], sig)\n", New: "\t\tsigsByMsgRoot[root] = append([]core.ParSignedData(nil), sig)\n"},
+			{ID: "C07-P3-publish-unchecked", File: "core/parsigdb/memory.go", Expect: "P3|output value",
+				Old: "\t\t} else if !ok {\n\t\t\tcontinue\n\t\t}\n\n\t\toutput[pubkey] = psigs", New: "\t\t}\n\n\t\t_ = ok\n\t\toutput[pubkey] = psigs"},
+			{ID: "C07-P3-publish-stored-list", File: "core/parsigdb/memory.go", Expect: "P3|output value",
+				Old: "\t\toutput[pubkey] = psigs\n", New: "\t\t_ = psigs\n\t\toutput[pubkey] = sigs\n"},
+			{ID: "C07-P4-break-on-duplicate", File: "core/parsigdb/memory.go", Expect: "P4",
+				Old: "\t\t\treturn nil, false, nil\n\t\t}\n\t}\n\n\t// Clone before storing.", New: "\t\t\tbreak\n\t\t}\n\t}\n\n\t// Clone before storing."},
+			{ID: "C07-P4-scan-other-key", File: "core/parsigdb/memory.go", Expect: "P4",
+				Old: "\tfor _, s := range db.entries[k] {\n\t\tif s.ShareIdx == value.ShareIdx {", New: "\tfor _, s := range db.entries[key{Duty: k.Duty}] {\n\t\tif s.ShareIdx == value.ShareIdx {"},
+			{ID: "C07-P6-cap-doubled", File: "core/parsigdb/memory.go", Expect: "P6",
+				Old: "\tif len(stored) > maxExemptEntriesPerShare {", New: "\tif len(stored) > 2*maxExemptEntriesPerShare {"},
+			{ID: "C07-P6-track-non-exempt", File: "core/parsigdb/memory.go", Expect: "P6",
+				Old: "\texempt := status == core.DeadlineExempt\n", New: "\texempt := status == core.DeadlineScheduled\n"},
+			{ID: "C07-P7-trim-on-store", File: "core/parsigdb/memory.go", Expect: "P7",
+				Old: "\tisNewKey := len(db.entries[k]) == 0\n",
+				New: "\tisNewKey := len(db.entries[k]) == 0\n\n\tfor _, old := range db.keysByDuty[k.Duty] {\n\t\tif old != k {\n\t\t\tdelete(db.entries, old)\n\t\t}\n\t}\n"},
+			{ID: "C07-P8-skip-above-threshold", File: "core/parsigdb/memory.go", Expect: "P8",
+				Old: "\t\t} else if !ok {\n\t\t\tlog.Debug(ctx, \"Ignoring duplicate partial signature\")", New: "\t\t} else if !ok || len(sigs) > db.threshold {\n\t\t\tlog.Debug(ctx, \"Ignoring duplicate partial signature\")"},
 		},
 	})
 }
@@ -71,6 +104,15 @@ func constOf(c *rt.Ctx, pkgRel, name string) int64 {
 }
 
 func c07(c *rt.Ctx) {
+	k := newC07k(c)
+	const (
+		nStoreExternal = "core/parsigdb.MemDB.StoreExternal"
+		nStore         = "core/parsigdb.MemDB.store"
+		nGTM           = "core/parsigdb.getThresholdMatching"
+		nTrack         = "core/parsigdb.MemDB.trackExemptUnsafe"
+		nEvict         = "core/parsigdb.MemDB.evictExemptShareEntryUnsafe"
+	)
+
 	c.Rule("P1", 8, func() {
 		lockRule(c, []string{"core/parsigdb"}, an.LockTable{
 			memdb + ".entries":       "mu", // every access in store/Trim/evict* is under mu
@@ -79,219 +121,482 @@ func c07(c *rt.Ctx) {
 		})
 	})
 
-	c.Rule("P2", 1, func() {
-		fn := c.Fn("core/parsigdb.MemDB.StoreExternal")
-		fan := callsIn(fn, an.FieldCall(memdb+".threshSubs"))
-		if len(fan) == 0 {
-			c.Bail("no call through threshSubs in StoreExternal")
+	// outputMaps: the locally made maps of StoreExternal that are handed (possibly cloned, possibly through
+	// an in-package helper) to the calls through threshSubs.
+	outputMaps := func(fn *ssa.Function) []ssa.Value {
+		var out []ssa.Value
+		for _, in := range an.Instrs(fn, false) {
+			if mk, ok := in.(*ssa.MakeMap); ok && k.flowsToFan(mk, 0) {
+				out = append(out, mk)
+			}
 		}
-		// the per-validator result map: a locally made map whose value flows into the fan-out argument
-		ups := mapUpdates(fn, func(m ssa.Value) bool {
-			_, isMake := m.(*ssa.MakeMap)
-			return isMake && types.Identical(m.Type(), fan[0].Common().Args[2].Type())
-		})
-		if len(ups) == 0 {
-			c.Bail("no write to the threshold-output map found in StoreExternal")
-		}
-		for _, up := range ups {
-			path, esc := an.EscapePath(up, func(in ssa.Instruction) bool { return isLoadOfField(in, memdb+".threshSubs") },
-				an.PassOpt{Prune: lenZeroPrune(up.Map)})
-			c.Check("StoreExternal output-write→threshSubs", posOf(up), !esc,
-				"path from the validator reaching threshold to a return that skips the threshold fan-out: "+an.PathString(c.P, path))
-		}
-	})
+		return out
+	}
 
-	c.Rule("P3", 4, func() {
-		fn := c.Fn("core/parsigdb.getThresholdMatching")
-		if len(fn.Params) != 3 {
-			c.Bail("getThresholdMatching: unexpected signature")
+	// fanSources: the functions of the package that make an output map, with their maps (StoreExternal today; a
+	// helper that took over its batch loop after a refactoring).
+	type fanSource struct {
+		fn   *ssa.Function
+		maps []ssa.Value
+	}
+	fanSources := func() []fanSource {
+		var out []fanSource
+		for _, fn := range k.ix.Funcs {
+			if ms := outputMaps(fn); len(ms) > 0 {
+				out = append(out, fanSource{fn, ms})
+			}
 		}
-		sigsP, thrP := fn.Params[1], fn.Params[2]
-		lenOf := func(v ssa.Value) ssa.Value { // v == len(x) -> x
-			if call, ok := v.(*ssa.Call); ok {
-				if b, ok := call.Call.Value.(*ssa.Builtin); ok && b.Name() == "len" {
-					return call.Call.Args[0]
-				}
-			}
-			return nil
+		return out
+	}
+
+	c.Rule("P2", 1, func() {
+		c.Fn(nStoreExternal)
+		srcs := fanSources()
+		if len(srcs) == 0 {
+			c.Bail("no locally made map of the package flows into a call through threshSubs")
 		}
-		for _, r := range an.Returns(fn) {
-			if len(r.Results) != 3 {
-				continue
-			}
-			okv := r.Results[1]
-			if k, isC := okv.(*ssa.Const); isC && !constant.BoolVal(k.Value) {
-				continue
-			}
-			set := r.Results[0]
-			if k, isC := okv.(*ssa.Const); isC && constant.BoolVal(k.Value) {
-				// must be a value of the root-grouped map, in a block on the true edge of len(set)==threshold
-				ex, ok := set.(*ssa.Extract)
-				var m ssa.Value
-				if ok && ex.Index == 2 {
-					if nx, ok := ex.Tuple.(*ssa.Next); ok {
-						if rg, ok := nx.Iter.(*ssa.Range); ok {
-							m = rg.X
-						}
-					}
+		for _, src := range srcs {
+			fn := src.fn
+			for _, m := range src.maps {
+				writes := k.mapWrites(fn, m)
+				if len(writes) == 0 {
+					c.Bail("no write to the threshold-output map found in %s", an.FuncName(fn))
 				}
-				if m == nil {
-					c.Bad("getThresholdMatching true-return set", posOf(r), "set returned with ok=true is not a value of the message-root grouping map")
-					continue
-				}
-				// size test
-				sized := false
-				for _, cd := range an.CondsOn(fn, findLen(fn, set)) {
-					if cd.Op == token.EQL && cd.Other == ssa.Value(thrP) && !cd.Neg && cd.Succ(true).Dominates(r.Block()) {
-						sized = true
+				// after an insertion the map is non-empty: `len(output) == 0` (in any spelling) is decided
+				env := an.H07Env{LenMin: func(x ssa.Value) (int64, bool) { return 1, an.Resolve(x) == m }}
+				for _, w := range writes {
+					path, esc := an.H07Path(fn, w, nil, k.fanEffect(m), env.Prune(), nil)
+					if esc && c07pathHasFlagBranch(path) {
+						// a flag variable decides: follow it from the function entry
+						path, esc = an.H07PathVia(fn, w, k.fanEffect(m), env.Prune())
 					}
-				}
-				c.Check("getThresholdMatching true-return size", posOf(r), sized, "returned group is not guarded by len(group) == threshold (parameter)")
-				// every insertion into m is keyed by MessageRoot() of the element appended
-				ups := mapUpdates(fn, func(x ssa.Value) bool { return x == m })
-				good := len(ups) > 0
-				why := "no insertion into the grouping map"
-				for _, up := range ups {
-					key := an.Unwrap(up.Key)
-					ex, ok := key.(*ssa.Extract)
-					var recv ssa.Value
-					if ok {
-						if call, ok := ex.Tuple.(*ssa.Call); ok && call.Call.Method != nil && call.Call.Method.Name() == "MessageRoot" {
-							recv = call.Call.Value
-						}
-					}
-					if recv == nil {
-						good, why = false, "grouping key is not the MessageRoot() of the element"
+					if esc && c07pathHasFlagBranch(path) && !c07flagsDecided(path) {
+						c.Unsure("StoreExternal output-write→threshSubs", posOf(w), "the fan-out is skipped on a branch over a flag variable that is not evaluated: "+an.PathString(c.P, path))
 						continue
 					}
-					elems := appendedElems(up.Value)
-					if len(elems) != 1 || !sameSigElem(elems[0], recv) {
-						good, why = false, "element appended to a group is not the one whose MessageRoot() is the key"
-					}
-					if l := an.InnermostLoop(fn, up.Block()); l == nil || !an.Equiv(l.RangeColl(), sigsP) {
-						good, why = false, "grouping loop does not range over the stored list parameter"
-					}
+					c.Check("StoreExternal output-write→threshSubs", posOf(w), !esc,
+						"path from the validator reaching threshold to a return that skips the threshold fan-out: "+an.PathString(c.P, path))
 				}
-				c.Check("getThresholdMatching grouping by MessageRoot", posOf(r), good, why)
-				continue
 			}
-			// non-constant ok: the DutySignature shortcut — returns the whole list iff len == threshold
-			bin, ok := okv.(*ssa.BinOp)
-			good := ok && bin.Op == token.EQL && lenOf(bin.X) == ssa.Value(sigsP) && bin.Y == ssa.Value(thrP) && set == ssa.Value(sigsP)
-			c.Check("getThresholdMatching DutySignature shortcut", posOf(r), good, "ok is not `len(sigs) == threshold` over the returned list")
-		}
-		// call site binding
-		se := c.Fn("core/parsigdb.MemDB.StoreExternal")
-		call := c.OneCall(se, an.Static("core/parsigdb.getThresholdMatching"), "getThresholdMatching", false)
-		args := call.Common().Args
-		thr := isLoadOfValueField(args[2], memdb+".threshold")
-		var fromStore bool
-		if ex, ok := args[1].(*ssa.Extract); ok && ex.Index == 0 {
-			if sc, ok := ex.Tuple.(*ssa.Call); ok && an.Static("core/parsigdb.MemDB.store")(&sc.Call) {
-				fromStore = true
-			}
-		}
-		c.Check("StoreExternal→getThresholdMatching threshold", call.Pos(), thr, "threshold argument is not the configured db.threshold")
-		c.Check("StoreExternal→getThresholdMatching list", call.Pos(), fromStore, "list argument is not the snapshot returned by db.store")
-		// the map entry written for the fan-out is the matching set, on the ok edge
-		for _, up := range mapUpdates(se, func(m ssa.Value) bool { _, ok := m.(*ssa.MakeMap); return ok }) {
-			ex, ok := up.Value.(*ssa.Extract)
-			good := ok && ex.Index == 0 && ex.Tuple == call.Value()
-			if good {
-				g, _ := an.Guarded(call, up, an.BoolGuard(1, true))
-				good = g
-			}
-			c.Check("StoreExternal output value", posOf(up), good, "value published for the validator is not the checked result of getThresholdMatching")
 		}
 	})
 
-	c.Rule("P4", 1, func() {
-		fn := c.Fn("core/parsigdb.MemDB.store")
-		ups := mapUpdates(fn, isFieldMap(memdb+".entries"))
-		if len(ups) == 0 {
-			c.Bail("no append to entries in store")
+	c.Rule("P3", 6, func() {
+		fn := c.Fn(nGTM)
+		var typP, sigsP, thrP *ssa.Parameter
+		for _, p := range fn.Params {
+			switch {
+			case an.TypeName(p.Type()) == "core.DutyType" && typP == nil:
+				typP = p
+			case an.TypeName(p.Type()) == "[]core.ParSignedData" && sigsP == nil:
+				sigsP = p
+			case an.TypeName(p.Type()) == "int" && thrP == nil:
+				thrP = p
+			}
 		}
-		valueP := fn.Params[3]
-		for _, up := range ups {
-			found, why := false, "no same-share scan over the existing entries precedes the append"
-			for _, b := range fn.Blocks {
-				iff, ok := b.Instrs[len(b.Instrs)-1].(*ssa.If)
-				if !ok {
-					continue
-				}
-				bin, ok := iff.Cond.(*ssa.BinOp)
+		if len(fn.Params) != 3 || typP == nil || sigsP == nil || thrP == nil {
+			c.Bail("getThresholdMatching: unexpected signature")
+		}
+		dutySig := constOf(c, "core", "DutySignature")
+		nTrue := 0
+		// matcher decides the returns of f (getThresholdMatching, or an in-package function it returns the
+		// results of) for the stored list sigsP and the threshold thrP. typP (may be nil) is the duty type
+		// parameter; sigCtx says that f is only reached for DutySignature.
+		var matcher func(f *ssa.Function, typP, sigsP, thrP *ssa.Parameter, sigCtx bool, depth int)
+		matcher = func(f *ssa.Function, typP, sigsP, thrP *ssa.Parameter, sigCtx bool, depth int) {
+			isThr := func(v ssa.Value) bool { return v != nil && an.Resolve(v) == ssa.Value(thrP) }
+			// lenEq: b is `len(set) == threshold` as a value
+			lenEq := func(b, set ssa.Value) bool {
+				bin, ok := an.Resolve(b).(*ssa.BinOp)
 				if !ok || bin.Op != token.EQL {
-					continue
+					return false
 				}
-				l := an.InnermostLoop(fn, b)
-				if l == nil {
-					continue
+				l, o := bin.X, bin.Y
+				if an.H07IsLen(l) == nil {
+					l, o = bin.Y, bin.X
 				}
-				isShare := func(v ssa.Value) (ssa.Value, bool) {
-					switch x := an.Unwrap(v).(type) {
-					case *ssa.Field:
-						return x.X, an.FieldKey(x.X.Type(), x.Field) == "core.ParSignedData.ShareIdx"
-					case *ssa.UnOp:
-						if fa, ok := x.X.(*ssa.FieldAddr); ok && x.Op == token.MUL {
-							return fa.X, an.FieldKey(fa.X.Type(), fa.Field) == "core.ParSignedData.ShareIdx"
+				x := an.H07IsLen(l)
+				return x != nil && an.Resolve(x) == an.Resolve(set) && isThr(o)
+			}
+			// sizeGuard: the return lies on the `len(set) == threshold` edge of a branch
+			sizeGuard := func(r *ssa.Return, set ssa.Value) c07v {
+				seen := false
+				for _, lc := range an.H07Lens(f, set) {
+					for _, cd := range an.CondsOn(f, lc) {
+						if !isThr(cd.Other) {
+							continue
+						}
+						seen = true
+						if (cd.Op == token.EQL && an.H07CondEdgeDominates(cd, true, r.Block())) ||
+							(cd.Op == token.NEQ && an.H07CondEdgeDominates(cd, false, r.Block())) {
+							return c07Ok()
 						}
 					}
-					return nil, false
 				}
-				xb, xok := isShare(bin.X)
-				yb, yok := isShare(bin.Y)
-				if !xok || !yok {
+				if !seen && set.Referrers() != nil {
+					for _, ref := range *set.Referrers() {
+						if ci, ok := ref.(ssa.CallInstruction); ok && k.ix.Callee(ci.Common()) != nil {
+							return c07Unsure("the size of the returned group is tested by a callee")
+						}
+					}
+				}
+				return c07Bad("returned group is not guarded by len(group) == threshold (parameter)")
+			}
+			typTested := false
+			onSigEdge := func(r *ssa.Return) bool {
+				if sigCtx {
+					return true
+				}
+				if typP == nil {
+					return false
+				}
+				for _, cd := range an.CondsOn(f, typP) {
+					if n, ok := an.ConstInt(cd.Other); !ok || n != dutySig {
+						continue
+					}
+					typTested = true
+					if (cd.Op == token.EQL && an.H07CondEdgeDominates(cd, true, r.Block())) ||
+						(cd.Op == token.NEQ && an.H07CondEdgeDominates(cd, false, r.Block())) {
+						return true
+					}
+				}
+				return false
+			}
+			for _, r := range an.Returns(f) {
+				rv := returnValues(r)
+				if len(rv) != 3 {
 					continue
 				}
-				elem, other := xb, yb
-				if !l.ElemOf(elem) {
-					elem, other = yb, xb
-				}
-				if !l.ElemOf(elem) || !rootedAt(other, valueP) {
+				okc, isConst := c07constBool(rv[1])
+				if isConst && !okc {
 					continue
 				}
-				if k, _, ok := an.FieldOf(l.RangeColl()); !ok || k != memdb+".entries" {
-					why = "scan does not range over db.entries[k]"
-					continue
+				// the results of an in-package callee handed on unchanged: decide the callee
+				if c0, i0, ok0 := c07resultOf(rv[0]); ok0 && !isConst {
+					if c1, i1, ok1 := c07resultOf(rv[1]); ok1 && c0 == c1 && i0 == 0 && i1 == 1 {
+						if h := k.ix.Callee(&c0.Call); h != nil && depth < 2 {
+							var hTyp, hSigs, hThr *ssa.Parameter
+							for i, a := range c0.Call.Args {
+								if i >= len(h.Params) {
+									break
+								}
+								switch an.Resolve(a) {
+								case ssa.Value(sigsP):
+									hSigs = h.Params[i]
+								case ssa.Value(thrP):
+									hThr = h.Params[i]
+								}
+								if typP != nil && an.Resolve(a) == ssa.Value(typP) {
+									hTyp = h.Params[i]
+								}
+							}
+							if hSigs == nil || hThr == nil {
+								nTrue++
+								k.report("getThresholdMatching true-return size", posOf(r),
+									c07Bad(an.FuncName(h)+" is not given the stored list and the threshold parameter unchanged"))
+								continue
+							}
+							matcher(h, hTyp, hSigs, hThr, onSigEdge(r), depth+1)
+							continue
+						}
+					}
 				}
-				ok2, w := an.ForallGuard(l, iff, b.Succs[0], up)
-				// here the *equal* edge is the one that must leave
-				if ok2 {
-					found = true
+				nTrue++
+				set := an.Resolve(rv[0])
+				// (a) the group has exactly threshold members
+				size := c07Ok()
+				switch {
+				case isConst:
+					size = sizeGuard(r, set)
+				case lenEq(rv[1], set):
+				default:
+					size = c07Unsure("ok is neither a constant nor `len(set) == threshold` over the returned list")
+					if bin, isBin := an.Resolve(rv[1]).(*ssa.BinOp); isBin && (an.H07IsLen(bin.X) != nil || an.H07IsLen(bin.Y) != nil) {
+						size = c07Bad("ok is not `len(sigs) == threshold` over the returned list")
+					}
+				}
+				// (b) the group is one message-root group of the stored list (the whole list only for DutySignature)
+				prov := c07Ok()
+				var mapv ssa.Value
+				switch x := set.(type) {
+				case *ssa.Extract:
+					if nx, ok := x.Tuple.(*ssa.Next); ok && x.Index == 2 {
+						if rg, ok := nx.Iter.(*ssa.Range); ok && an.IsMapType(rg.X.Type()) {
+							mapv = rg.X
+						}
+					}
+				case *ssa.Lookup:
+					if an.IsMapType(x.X.Type()) {
+						mapv = x.X
+					}
+				}
+				switch {
+				case set == ssa.Value(sigsP):
+					if !onSigEdge(r) {
+						prov = c07Bad("set returned with ok=true is the whole stored list, not a value of the message-root grouping map (allowed for DutySignature only)")
+						if typP != nil && !typTested {
+							prov = c07Unsure("the whole stored list is returned and the test for DutySignature is not recognised")
+						}
+					}
+				case mapv != nil:
+					prov = k.grouping(f, mapv, sigsP, 0)
+				case an.IsNilConst(set):
+					prov = c07Bad("nil set returned with ok possibly true")
+				default:
+					prov = c07Unsure("origin of the set returned with ok=true is not recognised")
+				}
+				if set == ssa.Value(sigsP) {
+					k.report("getThresholdMatching DutySignature shortcut", posOf(r), size.and(prov))
 				} else {
-					why = w
+					k.report("getThresholdMatching true-return size", posOf(r), size)
+					k.report("getThresholdMatching grouping by MessageRoot", posOf(r), prov)
 				}
 			}
-			c.Check("store append after same-share scan", posOf(up), found, why)
-			// the scan and the append form one critical section: no explicit Unlock between reading the list and appending
-			for _, in := range an.Instrs(fn, false) {
-				lk, ok := in.(*ssa.Lookup)
-				if !ok || !isFieldMap(memdb+".entries")(lk.X) || !an.InstrReaches(lk, up) {
+		}
+		matcher(fn, typP, sigsP, thrP, false, 0)
+		if nTrue == 0 {
+			c.Bail("getThresholdMatching never returns ok=true")
+		}
+		// call-site binding: every call evaluates the snapshot returned by db.store against the configured threshold
+		store := c.Fn(nStore)
+		calls := k.callsOf(fn)
+		if len(calls) == 0 {
+			c.Bail("no static call of getThresholdMatching in the package")
+		}
+		var thresholdArg func(v ssa.Value, depth int) c07v
+		thresholdArg = func(v ssa.Value, depth int) c07v {
+			if isLoadOfValueField(an.Resolve(v), memdb+".threshold") {
+				return c07Ok()
+			}
+			switch x := an.Resolve(v).(type) {
+			case *ssa.BinOp, *ssa.Const:
+				return c07Bad("threshold argument is not the configured db.threshold")
+			case *ssa.Parameter:
+				sites, closed := k.ix.Callers(x.Parent())
+				if !closed || len(sites) == 0 || depth > 2 {
+					break
+				}
+				out := c07Ok()
+				for _, s := range sites {
+					a := an.H07ArgFor(s, an.H07ParamIndex(x))
+					if a == nil {
+						return c07Unsure("cannot map the threshold parameter to an argument")
+					}
+					out = out.and(thresholdArg(a, depth+1))
+				}
+				return out
+			}
+			return c07Unsure("origin of the threshold argument is not recognised")
+		}
+		for _, call := range calls {
+			args := call.Common().Args
+			where := an.FuncName(call.Parent())
+			where = where[strings.LastIndex(where, ".")+1:]
+			k.report(where+"→getThresholdMatching threshold", call.Pos(), thresholdArg(args[an.H07ParamIndex(thrP)], 0))
+			var listFrom func(v ssa.Value, depth int) c07v
+			listFrom = func(v ssa.Value, depth int) c07v {
+				if _, _, isField := an.FieldOf(v); isField {
+					return c07Bad("list argument is taken from the store's state, not the snapshot returned by db.store")
+				}
+				if phi, isPhi := an.Resolve(v).(*ssa.Phi); isPhi && depth <= 2 {
+					out, n := c07Ok(), 0
+					for _, e := range phi.Edges {
+						if an.IsNilConst(an.Resolve(e)) {
+							continue // the variable before its assignment
+						}
+						n++
+						out = out.and(listFrom(e, depth+1))
+					}
+					if n > 0 {
+						return out
+					}
+				}
+				sc, idx, ok := c07resultOf(v)
+				if !ok || depth > 2 {
+					return c07Unsure("origin of the list argument is not recognised")
+				}
+				h := k.ix.Callee(&sc.Call)
+				switch {
+				case h == store && idx == 0:
+					return c07Ok()
+				case h == nil:
+					return c07Unsure("list argument is the result of a call that is not followed")
+				}
+				out, n := c07Ok(), 0
+				for _, r := range an.Returns(h) {
+					rv := returnValues(r)
+					if idx >= len(rv) || an.IsNilConst(an.Resolve(rv[idx])) {
+						continue
+					}
+					n++
+					out = out.and(listFrom(rv[idx], depth+1))
+				}
+				if n == 0 {
+					return c07Unsure(an.FuncName(h) + " returns no list")
+				}
+				return out
+			}
+			list := listFrom(args[an.H07ParamIndex(sigsP)], 0)
+			k.report(where+"→getThresholdMatching list", call.Pos(), list)
+		}
+		// the map entry written for the fan-out is the matching set, on the ok edge
+		var produces func(h *ssa.Function, si, bi, depth int) c07v
+		matchOf := func(v ssa.Value, at ssa.Instruction, depth int) c07v {
+			mc, idx, ok := c07resultOf(v)
+			if !ok {
+				return c07Unsure("origin of the published set is not recognised")
+			}
+			h := k.ix.Callee(&mc.Call)
+			if h == nil {
+				return c07Unsure("the published set is the result of a call that is not followed")
+			}
+			if h == store {
+				return c07Bad("value published for the validator is the whole stored list, not the checked result of getThresholdMatching")
+			}
+			if h == fn {
+				if g, _ := an.Guarded(mc, at, an.BoolGuard(1, true)); g && idx == 0 {
+					return c07Ok()
+				}
+				return c07Bad("value published for the validator is not the checked result of getThresholdMatching")
+			}
+			bis := c07boolResults(h.Signature)
+			if len(bis) != 1 || depth > 2 {
+				return c07Unsure("cannot tell which result of " + an.FuncName(h) + " reports that threshold was reached")
+			}
+			if g, _ := an.Guarded(mc, at, an.BoolGuard(bis[0], true)); !g {
+				return c07Bad("value published for the validator is not guarded by the `reached` result of " + an.FuncName(h))
+			}
+			return produces(h, idx, bis[0], depth+1)
+		}
+		produces = func(h *ssa.Function, si, bi, depth int) c07v {
+			out, n := c07Ok(), 0
+			for _, r := range an.Returns(h) {
+				rv := returnValues(r)
+				if si >= len(rv) || bi >= len(rv) {
 					continue
 				}
-				u := an.PathThrough(lk, up, func(x ssa.Instruction) bool {
-					call, ok := x.(*ssa.Call)
-					return ok && an.Static("sync.Mutex.Unlock", "sync.RWMutex.Unlock")(&call.Call)
-				})
-				pos := posOf(up)
-				if u != nil {
-					pos = u.Pos()
+				b, isConst := c07constBool(rv[bi])
+				if isConst && !b {
+					continue
 				}
-				c.Check("store scan and append in one critical section", pos, u == nil,
-					"the lock is released between reading entries[k] for the duplicate scan and appending: two concurrent stores of the same share both pass the scan and both append")
-				break
+				n++
+				if !isConst {
+					// pass-through of the matcher's own results
+					mc, i0, ok0 := c07resultOf(rv[si])
+					mc1, i1, ok1 := c07resultOf(rv[bi])
+					if ok0 && ok1 && mc == mc1 && k.ix.Callee(&mc.Call) == fn && i0 == 0 && i1 == 1 {
+						continue
+					}
+					out = out.and(c07Unsure(an.FuncName(h) + " computes its `reached` result in an unrecognised way"))
+					continue
+				}
+				out = out.and(matchOf(rv[si], r, depth))
 			}
+			if n == 0 {
+				return c07Bad(an.FuncName(h) + " never reports that threshold was reached")
+			}
+			return out
+		}
+		nOut := 0
+		for _, src := range fanSources() {
+			for _, m := range src.maps {
+				for _, w := range k.mapWrites(src.fn, m) {
+					nOut++
+					up, isUp := w.(*ssa.MapUpdate)
+					if call, isCall := w.(*ssa.Call); isCall {
+						// a function literal that captured the map: decide its assignments where they are
+						for _, inner := range k.closureWrites(call, m) {
+							isUp = true
+							k.report("StoreExternal output value", posOf(inner), matchOf(inner.Value, inner, 0))
+						}
+						if isUp {
+							continue
+						}
+					}
+					if !isUp {
+						c.Unsure("StoreExternal output value", posOf(w), "the threshold-output map is filled by a callee")
+						continue
+					}
+					k.report("StoreExternal output value", posOf(up), matchOf(up.Value, up, 0))
+				}
+			}
+		}
+		if nOut == 0 {
+			c.Bail("no write to a threshold-output map found")
+		}
+	})
+
+	c.Rule("P4", 2, func() {
+		n := 0
+		for _, fn := range k.ix.Funcs {
+			for _, up := range mapUpdates(fn, c07entries) {
+				if up.Parent() != fn {
+					continue
+				}
+				_, elems, ok := c07growAppend(up, c07entries)
+				if !ok {
+					continue // not an insertion (P7 decides about it)
+				}
+				n++
+				var vp *ssa.Parameter
+				if len(elems) == 1 {
+					vp = c07valueRootParam(elems[0])
+				}
+				name := an.FuncName(fn)
+				name = name[strings.LastIndex(name, ".")+1:]
+				k.report(name+" append after same-share scan", posOf(up), k.scanBefore(fn, up, up.Key, vp, 0))
+				// the scan and the append form one critical section: no explicit Unlock between reading the list and appending
+				k.report(name+" scan and append in one critical section", posOf(up), k.oneCriticalSection(fn, up))
+			}
+		}
+		if n == 0 {
+			c.Bail("no append to entries in the package")
 		}
 	})
 
 	c.Rule("P8", 1, func() {
 		// every accepted insertion is evaluated against the threshold: from db.store (accepted edge) every path to the
 		// next iteration / exit passes getThresholdMatching
-		fn := c.Fn("core/parsigdb.MemDB.StoreExternal")
-		gtm := c.Fn("core/parsigdb.getThresholdMatching")
-		for _, st := range c.SomeCalls(fn, an.Static("core/parsigdb.MemDB.store"), "db.store", false) {
+		store := c.Fn(nStore)
+		gtm := c.Fn(nGTM)
+		sites := k.callsOf(store)
+		if len(sites) == 0 {
+			c.Bail("no static call of db.store in the package")
+		}
+		bis := c07boolResults(store.Signature)
+		if len(bis) != 1 {
+			c.Bail("store: expected exactly one boolean result")
+		}
+		for _, st := range sites {
+			fn := st.Parent()
+			if st.Value() == nil {
+				c.Unsure("StoreExternal accepted insertion→getThresholdMatching", st.Pos(), "db.store is called with go/defer")
+				continue
+			}
 			l := an.InnermostLoop(fn, st.Block())
-			errs, okv := an.StatusOf(st, 1)
+			var hdr *ssa.BasicBlock
+			if l != nil {
+				hdr = l.Header
+			}
+			errs0, okv0 := an.StatusOf(st, bis[0])
+			var list0 ssa.Value
+			for _, ref := range *st.Value().Referrers() {
+				if ex, ok := ref.(*ssa.Extract); ok && ex.Index == 0 {
+					list0 = ex
+				}
+			}
+			// the results, and the variables that hold them on every path from the call (`sigs, ok, err = db.store(...)`
+			// assigned to variables declared before: phis whose other edges cannot be reached from the call)
+			var errs, oks, lists []ssa.Value
+			for _, e := range errs0 {
+				errs = append(errs, c07aliasesAfter(st, e, hdr)...)
+			}
+			if okv0 != nil {
+				oks = c07aliasesAfter(st, okv0, hdr)
+			}
+			if list0 != nil {
+				lists = c07aliasesAfter(st, list0, hdr)
+			}
 			prune := func(b *ssa.BasicBlock, succ int) bool {
 				iff, ok := b.Instrs[len(b.Instrs)-1].(*ssa.If)
 				if !ok {
@@ -299,12 +604,12 @@ func c07(c *rt.Ctx) {
 				}
 				for _, e := range errs {
 					for _, cd := range an.CondsOn(fn, e) {
-						if cd.If == iff && cd.Other != nil && an.IsNilConst(cd.Other) {
+						if cd.If == iff && cd.Other != nil && an.IsNilConst(cd.Other) && (cd.Op == token.EQL || cd.Op == token.NEQ) {
 							return b.Succs[succ] == cd.Succ(cd.Op != token.EQL) // err != nil edge: rejected
 						}
 					}
 				}
-				if okv != nil {
+				for _, okv := range oks {
 					for _, cd := range an.CondsOn(fn, okv) {
 						if cd.If == iff && cd.Other == nil {
 							return b.Succs[succ] == cd.Succ(false) // duplicate ignored
@@ -312,105 +617,247 @@ func c07(c *rt.Ctx) {
 					}
 				}
 				// `len(list) < db.threshold` is a sound shortcut (getThresholdMatching starts with the same test)
-				if bin, ok := iff.Cond.(*ssa.BinOp); ok {
-					x, y, op := bin.X, bin.Y, bin.Op
-					if op == token.GTR || op == token.GEQ {
-						x, y = y, x
-						if op == token.GTR {
-							op = token.LSS
-						} else {
-							op = token.LEQ
-						}
-					}
-					if call, ok := x.(*ssa.Call); ok && op == token.LSS && isLoadOfValueField(y, memdb+".threshold") {
-						if bi, ok := call.Call.Value.(*ssa.Builtin); ok && bi.Name() == "len" {
-							if ex, ok := call.Call.Args[0].(*ssa.Extract); ok && ex.Index == 0 && ex.Tuple == st.Value() {
-								return succ == 0
+				for _, list := range lists {
+					for _, lc := range an.H07Lens(fn, list) {
+						for _, cd := range an.CondsOn(fn, lc) {
+							if cd.If != iff || cd.Other == nil || !isLoadOfValueField(an.Resolve(cd.Other), memdb+".threshold") {
+								continue
+							}
+							switch cd.Op {
+							case token.LSS:
+								return b.Succs[succ] == cd.Succ(true)
+							case token.GEQ:
+								return b.Succs[succ] == cd.Succ(false)
 							}
 						}
 					}
 				}
 				return false
 			}
-			opt := an.PassOpt{Prune: prune}
+			var stop func(b *ssa.BasicBlock) bool
 			if l != nil {
-				opt.StopAt = func(b *ssa.BasicBlock) bool { return b == l.Header }
+				stop = func(b *ssa.BasicBlock) bool { return b == l.Header }
 			}
-			path, esc := an.EscapePath(st, func(in ssa.Instruction) bool {
-				ci, ok := in.(ssa.CallInstruction)
-				return ok && ci.Common().StaticCallee() == gtm
-			}, opt)
+			path, esc := an.H07Path(fn, st, nil, k.callEffect(gtm), prune, stop)
+			if esc && l == nil && len(path) > 0 {
+				// a helper that only stores and hands the result on: the evaluation may follow in its callers
+				last := path[len(path)-1]
+				if r, ok := last.Instrs[len(last.Instrs)-1].(*ssa.Return); ok && list0 != nil {
+					for _, v := range returnValues(r) {
+						if an.Resolve(v) == list0 {
+							c.Unsure("StoreExternal accepted insertion→getThresholdMatching", st.Pos(),
+								an.FuncName(fn)+" returns the stored list to its callers without evaluating it; the evaluation in the callers is not followed")
+							esc = false
+						}
+					}
+					if !esc {
+						continue
+					}
+				}
+			}
+			if esc && c07pathHasFlagBranch(path, oks...) {
+				c.Unsure("StoreExternal accepted insertion→getThresholdMatching", st.Pos(), "the evaluation is skipped on a branch over a flag variable that is not evaluated: "+an.PathString(c.P, path))
+				continue
+			}
 			c.Check("StoreExternal accepted insertion→getThresholdMatching", st.Pos(), !esc,
 				"an accepted partial signature is not evaluated against the threshold on path "+an.PathString(c.P, path)+": a matching group can reach threshold unnoticed")
 		}
 	})
 
 	c.Rule("P5", 1, func() {
-		fn := c.Fn("core/parsigdb.MemDB.StoreExternal")
+		fn := c.Fn(nStoreExternal)
+		store := c.Fn(nStore)
 		add := c.OneCall(fn, an.Invoke("core.Deadliner.Add"), "deadliner.Add", false)
 		expired := constOf(c, "core", "DeadlineExpired")
-		stores := c.SomeCalls(fn, an.Static("core/parsigdb.MemDB.store"), "db.store", false)
-		for _, st := range stores {
-			good := false
-			for _, cd := range an.CondsOn(fn, add.Value()) {
-				if n, ok := an.ConstInt(cd.Other); ok && n == expired && cd.Op == token.EQL && an.Dominates(cd.If, st) &&
-					an.EdgeCuts(cd.Succ(true), st, nil) {
-					good = true
+		var sinks []ssa.CallInstruction
+		for _, in := range an.Instrs(fn, false) {
+			if ci, ok := in.(ssa.CallInstruction); ok {
+				if g := k.ix.Callee(ci.Common()); g != nil && k.mayCall(g, store) {
+					sinks = append(sinks, ci)
 				}
 			}
+		}
+		if len(sinks) == 0 {
+			c.Bail("no call (direct or through an in-package helper) of db.store in StoreExternal")
+		}
+		env := func(v ssa.Value) (constant.Value, bool) {
+			if v == add.Value() {
+				return constant.MakeInt64(expired), true
+			}
+			return nil, false
+		}
+		decided := 0
+		for _, b := range fn.Blocks {
+			if iff, ok := b.Instrs[len(b.Instrs)-1].(*ssa.If); ok {
+				if _, ok := an.C05Eval(iff.Cond, env); ok {
+					decided++
+				}
+			}
+		}
+		for _, st := range sinks {
+			if decided == 0 {
+				c.Unsure("StoreExternal expired→no store", st.Pos(), "no branch of StoreExternal is decided by the status returned by deadliner.Add (expiry test not recognised)")
+				continue
+			}
+			good := an.Dominates(add, st) && !an.C05ReachUnder(add, st, env)
 			c.Check("StoreExternal expired→no store", st.Pos(), good, "db.store is reachable when deadliner.Add reports DeadlineExpired")
 		}
 	})
 
 	c.Rule("P6", 2, func() {
-		fn := c.Fn("core/parsigdb.MemDB.trackExemptUnsafe")
+		fn := c.Fn(nTrack)
+		evict := c.Fn(nEvict)
 		limit := constOf(c, "core/parsigdb", "maxExemptEntriesPerShare")
-		ups := mapUpdates(fn, isFieldMap(memdb+".exemptEntries"))
+		ups := mapUpdates(fn, c07exempt)
 		if len(ups) == 0 {
 			c.Bail("no write-back of exemptEntries")
 		}
-		for _, up := range ups {
-			good := false
-			for _, b := range fn.Blocks {
-				iff, ok := b.Instrs[len(b.Instrs)-1].(*ssa.If)
-				if !ok {
-					continue
+		// prior: the tracked list as looked up; grown: the list with the new key appended. The cap test may be
+		// written on either (`len(grown) > max` after, `len(prior) >= max` before the append).
+		var grown, prior ssa.Value
+		derives := func(v ssa.Value) (direct, ok bool) { // v is prior, or prior re-sliced / merged
+			direct = true
+			for i := 0; i < 6; i++ {
+				v = an.Resolve(v)
+				switch x := v.(type) {
+				case *ssa.Lookup:
+					return direct, c07exempt(x.X)
+				case *ssa.Slice:
+					v, direct = x.X, false
+				case *ssa.Phi:
+					for _, e := range x.Edges {
+						if lk, isLk := an.Resolve(e).(*ssa.Lookup); isLk && c07exempt(lk.X) {
+							return false, true
+						}
+					}
+					return false, false
+				default:
+					return false, false
 				}
-				bin, ok := iff.Cond.(*ssa.BinOp)
-				if !ok || bin.Op != token.GTR {
-					continue
+			}
+			return false, false
+		}
+		for _, in := range an.Instrs(fn, false) {
+			if lk, ok := in.(*ssa.Lookup); ok && c07exempt(lk.X) {
+				if prior != nil && !an.Equiv(prior, lk) {
+					c.Bail("trackExemptUnsafe: the tracked list is looked up under several keys")
 				}
-				if n, ok := an.ConstInt(bin.Y); !ok || n != limit {
-					continue
+				if prior == nil {
+					prior = lk
 				}
-				evict := false
-				for _, in := range b.Succs[0].Instrs {
-					if ci, ok := in.(ssa.CallInstruction); ok && an.Static("core/parsigdb.MemDB.evictExemptShareEntryUnsafe")(ci.Common()) {
-						evict = true
+			}
+		}
+		appends := 0
+		for _, in := range an.Instrs(fn, false) {
+			if call, ok := c07isBuiltin2(in, "append"); ok && len(call.Call.Args) == 2 {
+				if direct, ok := derives(call.Call.Args[0]); ok {
+					appends++
+					if direct {
+						grown = call
 					}
 				}
-				if evict && an.Dominates(iff, up) {
-					good = true
+			}
+		}
+		if prior == nil || appends != 1 {
+			c.Bail("trackExemptUnsafe: expected one lookup of exemptEntries[ek] and one append of the new key to it")
+		}
+		// assume the cap is exceeded (len(prior)+1 > limit): every path to a write-back must evict first
+		env := an.H07Env{LenMin: func(x ssa.Value) (int64, bool) {
+			switch an.Resolve(x) {
+			case grown:
+				return limit + 1, grown != nil
+			case prior:
+				return limit, true
+			}
+			return 0, false
+		}}
+		isEvict := func(in ssa.Instruction) bool {
+			ci, ok := in.(*ssa.Call)
+			if !ok {
+				return false
+			}
+			g := k.ix.Callee(&ci.Call)
+			return g != nil && (g == evict || k.mustCallFn(g, evict))
+		}
+		capTests, evicts := 0, 0
+		for _, b := range fn.Blocks {
+			for _, in := range b.Instrs {
+				if isEvict(in) {
+					evicts++
 				}
 			}
-			c.Check("trackExemptUnsafe cap before write-back", posOf(up), good, "write-back of the per-share list is not preceded by the cap test that evicts the oldest entry")
 		}
-		// called iff exempt, from store only
-		st := c.Fn("core/parsigdb.MemDB.store")
-		call := c.OneCall(st, an.Static("core/parsigdb.MemDB.trackExemptUnsafe"), "trackExemptUnsafe", false)
-		good := false
-		for _, cd := range an.CondsOn(st, st.Params[4]) {
-			if cd.Other == nil && cd.Succ(true).Dominates(call.Block()) {
-				good = true
+		// a recognised cap test: a branch comparing the length of the tracked list with a constant (decided once the
+		// list is assumed arbitrarily long) one edge of which leads to the eviction. Whether its constant is the
+		// right one is what the path search below decides.
+		huge := an.H07Env{LenMin: func(x ssa.Value) (int64, bool) {
+			r := an.Resolve(x)
+			return 1 << 40, r == prior || (grown != nil && r == grown)
+		}}
+		for _, b := range fn.Blocks {
+			iff, ok := b.Instrs[len(b.Instrs)-1].(*ssa.If)
+			if !ok {
+				continue
+			}
+			if _, isCmp := huge.Eval(iff.Cond); !isCmp {
+				continue
+			}
+			for _, b2 := range fn.Blocks {
+				for _, in := range b2.Instrs {
+					if isEvict(in) && (an.H07EdgeDominates(b, 0, b2) || an.H07EdgeDominates(b, 1, b2)) {
+						capTests++
+					}
+				}
 			}
 		}
-		c.Check("store tracks exempt entries", call.Pos(), good, "trackExemptUnsafe is not called exactly on the exempt edge")
+		for _, up := range ups {
+			path, reach := an.H07Path(fn, nil, up, isEvict, env.Prune(), nil)
+			if reach && evicts > 0 && (capTests == 0 || c07pathHasFlagBranch(path)) {
+				c.Unsure("trackExemptUnsafe cap before write-back", posOf(up), "the entry is evicted under a cap test that is not recognised")
+				continue
+			}
+			c.Check("trackExemptUnsafe cap before write-back", posOf(up), !reach,
+				"write-back of the per-share list is not preceded by the cap test that evicts the oldest entry: with more than maxExemptEntriesPerShare tracked keys path "+an.PathString(c.P, path)+" reaches it without evicting")
+		}
+		// called only on the exempt edge, and `exempt` is `status == DeadlineExempt`
+		exemptC := constOf(c, "core", "DeadlineExempt")
+		sites := k.callsOf(fn)
+		if len(sites) == 0 {
+			c.Bail("no static call of trackExemptUnsafe in the package")
+		}
+		for _, call := range sites {
+			caller := call.Parent()
+			v := c07Bad("trackExemptUnsafe is not called exactly on the exempt edge")
+			seen := false
+			for _, p := range caller.Params {
+				if b, ok := p.Type().Underlying().(*types.Basic); !ok || b.Kind() != types.Bool {
+					continue
+				}
+				for _, cd := range an.CondsOn(caller, p) {
+					if cd.Other != nil {
+						continue
+					}
+					seen = true
+					if an.H07CondEdgeDominates(cd, true, call.Block()) {
+						v = k.statusIs(p, exemptC, 0)
+					}
+				}
+			}
+			if !seen && v.st == c07bad {
+				for _, b := range caller.Blocks {
+					if iff, ok := b.Instrs[len(b.Instrs)-1].(*ssa.If); ok && an.Dominates(iff, call) {
+						v = c07Unsure("the condition under which trackExemptUnsafe is called is not a boolean parameter")
+					}
+				}
+			}
+			k.report("store tracks exempt entries", call.Pos(), v)
+		}
 	})
 
 	c.Rule("P7", 3, func() {
 		// every removal from entries (delete, or overwrite with something other than append(entries[k], x))
 		// must be the whole-key deletion driven by expiry in Trim.
-		for _, fn := range an.PkgFuncs(c.SSAPkg("core/parsigdb")) {
+		for _, fn := range k.ix.Funcs {
 			for _, in := range an.Instrs(fn, false) {
 				switch x := in.(type) {
 				case *ssa.Call:
@@ -418,22 +865,25 @@ func c07(c *rt.Ctx) {
 					if !ok || (b.Name() != "delete" && b.Name() != "clear") {
 						continue
 					}
-					if k, _, ok := an.FieldOf(x.Call.Args[0]); !ok || k != memdb+".entries" {
+					if key, _, ok := an.FieldOf(x.Call.Args[0]); !ok || key != memdb+".entries" {
 						continue
 					}
-					c.Check(an.FuncName(fn)+" delete(entries)", x.Pos(), an.FuncName(fn) == "core/parsigdb.MemDB.Trim" && fromDeadlinerC(x),
-						"partial signatures are removed from a key outside expiry trimming: a group that already fired can shrink and reach exactly threshold again")
+					v := c07Bad("")
+					if b.Name() == "delete" {
+						v = k.expiryDelete(x)
+					}
+					if v.st == c07bad {
+						v.why = "partial signatures are removed from a key outside expiry trimming: a group that already fired can shrink and reach exactly threshold again"
+					}
+					k.report(an.FuncName(fn)+" delete(entries)", x.Pos(), v)
 				case *ssa.MapUpdate:
-					if !isFieldMap(memdb + ".entries")(x.Map) {
+					if !c07entries(x.Map) {
 						continue
 					}
-					grow := false
-					if call, ok := x.Value.(*ssa.Call); ok {
-						if b, ok := call.Call.Value.(*ssa.Builtin); ok && b.Name() == "append" {
-							if lk, ok := call.Call.Args[0].(*ssa.Lookup); ok && isFieldMap(memdb+".entries")(lk.X) && an.Equiv(lk.Index, x.Key) {
-								grow = true
-							}
-						}
+					_, _, grow := c07growAppend(x, c07entries)
+					if call, _, isRes := c07resultOf(x.Value); !grow && isRes && k.ix.Callee(&call.Call) != nil {
+						c.Unsure(an.FuncName(fn)+" entries[k]=", posOf(x), "entries[k] is assigned the result of "+an.FuncName(k.ix.Callee(&call.Call))+", which is not followed")
+						continue
 					}
 					c.Check(an.FuncName(fn)+" entries[k]=", posOf(x), grow,
 						"entries[k] is overwritten with something other than append(entries[k], new): stored shares can disappear and threshold be reached again")
@@ -443,23 +893,40 @@ func c07(c *rt.Ctx) {
 	})
 }
 
-// fromDeadlinerC: the delete is keyed by the range over keysByDuty[duty] with duty received from deadliner.C().
-func fromDeadlinerC(del *ssa.Call) bool {
+// c07isBuiltin2 matches an instruction that is a call of the named builtin.
+func c07isBuiltin2(in ssa.Instruction, name string) (*ssa.Call, bool) {
+	call, ok := in.(*ssa.Call)
+	if !ok {
+		return nil, false
+	}
+	b, ok := call.Call.Value.(*ssa.Builtin)
+	return call, ok && b.Name() == name
+}
+
+// expiryDelete: the delete of a key of entries is the whole-key deletion of an expired duty: the key
+// is an element of the loop over keysByDuty[duty] and duty was received from deadliner.C() (in this
+// function, or in the callers of a helper that is only called statically).
+func (k *c07k) expiryDelete(del *ssa.Call) c07v {
 	fn := del.Parent()
 	l := an.InnermostLoop(fn, del.Block())
 	if l == nil {
-		return false
+		return c07Bad("not in a loop")
 	}
-	coll := l.RangeColl()
-	lk, ok := an.Unwrap(coll).(*ssa.Lookup)
-	if !ok {
-		return false
+	coll := an.H07LoopColl(l)
+	if coll == nil {
+		return c07Unsure("collection of the loop around delete(entries, key) is not recognised")
 	}
-	if k, _, ok := an.FieldOf(lk.X); !ok || k != memdb+".keysByDuty" {
-		return false
+	lk := c07lookupOf(coll)
+	if lk == nil {
+		return c07Unsure("the keys to delete are not recognisably keysByDuty[duty]")
 	}
-	// index originates from a select/recv on deadliner.C()
-	return valueFromRecvOf(lk.Index, "iface:core.Deadliner.C") && l.ElemOf(del.Call.Args[1])
+	if !c07keysByDuty(lk.X) {
+		return c07Bad("loop is not over keysByDuty[duty]")
+	}
+	if !(an.H07ElemOf(l, del.Call.Args[1]) || l.ElemOf(del.Call.Args[1])) {
+		return c07Bad("deleted key is not the loop element")
+	}
+	return k.fromDeadlinerC(lk.Index, del, 0)
 }
 
 // valueFromRecvOf: v is received (select or <-) from a channel returned by the named call.
